@@ -155,7 +155,7 @@ def tlc(module, cfg, wd, workers=None, timeout=1800, simulate=None, seed=None, e
     # java is started directly (not through the tlc wrapper) so that -Xss also applies to the
     # main thread, which evaluates ASSUMEs and initial states (deep recursive operators)
     cmd = ["java", "-Xss512m", "-XX:+UseParallelGC", "-cp", TLA_CP, "tlc2.TLC",
-           "-metadir", os.path.join(wd, "states"), "-cleanup", "-noGenerateSpecTE",
+           "-metadir", os.path.join(wd, "states"), "-checkpoint", "0", "-cleanup", "-noGenerateSpecTE",
            "-workers", str(workers or max(2, NCPU // 2))]
     if coverage:
         cmd += ["-coverage", "1"]
